@@ -144,6 +144,17 @@ func (u *Unit) entryHeap(key string) string {
 func (u *Unit) nameHeap(key string, t string) string {
 	n := u.w.newConst("H:"+key, u.heapSort(key))
 	u.fact(eq(n, t))
+	// remember the heap versions this one is built from, so that frame axioms of those versions are
+	// instantiated when this one is read
+	var ps []string
+	symbols(t, func(sy string) {
+		if strings.HasPrefix(sy, "|H:") || strings.HasPrefix(sy, "|Hh:") || strings.HasPrefix(sy, "|Hm:") {
+			ps = append(ps, sy)
+		}
+	})
+	if len(ps) > 0 {
+		u.hparents[n] = ps
+	}
 	return n
 }
 
@@ -160,6 +171,15 @@ func (u *Unit) havocHeap(s *State, key string, open bool, except []string) {
 // sel1 reads heap[ref], instantiating frame axioms for framed versions.
 func (u *Unit) sel1(h string, ref string) string {
 	t := fmt.Sprintf("(select %s %s)", h, ref)
+	if ps, ok := u.hparents[h]; ok {
+		ck := "par:" + h + "@" + ref
+		if !u.frameDone[ck] {
+			u.frameDone[ck] = true
+			for _, p := range ps {
+				u.sel1(p, ref)
+			}
+		}
+	}
 	if hv, ok := u.hver[h]; ok {
 		ck := h + "@" + ref
 		if !u.frameDone[ck] {
@@ -285,9 +305,12 @@ func (u *Unit) merge(states []*State, label string) *State {
 			continue
 		}
 		n := u.w.newConst("Hm:"+k, u.heapSort(k))
+		var ps []string
 		for _, s := range live {
 			u.fact(implies(s.pc, eq(n, u.heapOf(s, k))))
+			ps = append(ps, u.heapOf(s, k))
 		}
+		u.hparents[n] = ps
 		out.heap[k] = n
 	}
 	// now
@@ -378,7 +401,7 @@ func (u *Unit) wfFacts(s *State, t string, ty types.Type, depth int) []string {
 			out = append(out, u.wfFacts(s, u.w.fieldSel(ty, i, t), x.Field(i).Type(), depth+1)...)
 		}
 	case *types.Interface:
-		out = append(out, fmt.Sprintf("(=> (= (typ %s) T_nil) (= (val %s) boxnil))", t, t))
+		out = append(out, fmt.Sprintf("(=> (= (ityp %s) T_nil) (= (ival %s) boxnil))", t, t))
 	}
 	return out
 }
